@@ -330,6 +330,23 @@ def agree_model(c, got, m):
     return core.canon(got) == core.canon(m)
 
 
+def live_cases(tier, rng):
+    for _ in range(600 if tier in ("thorough", "widen") else 120):
+        yield dict(rand_file(rng, nrec=rng.choice([1, 2, 3, 5])), op="decode")
+
+
+def impl_live(c):
+    """history probe: the (lazily decoded) table of one file must read the same after another file has been read"""
+    import bionumpy as bnp
+    p, body = write_file(c)
+    try:
+        d = bnp.open(p).read()
+    finally:
+        os.remove(p)
+    hdr = bhash(encode_header(c["refs"], bytes(c["text"])))
+    return d, (lambda d: {"enc": bhash(body), "hdr": hdr, "refs": [[n, l] for n, l in c["refs"]], "recs": _rows(d)})
+
+
 def _jrec(r):
     return {"ref": r["ref"], "pos": r["pos"], "mapq": r["mapq"], "bin": r["bin"], "flag": r["flag"], "nref": r["nref"],
             "npos": r["npos"], "tlen": r["tlen"], "name": list(r["name"].encode("latin-1")),
@@ -526,6 +543,40 @@ def cases(tier, rng):
     for op in ("decode", "interval"):
         yield {"op": op, "refs": two, "text": [0, 10, 0], "recs": ex, "blk": 65280, "eof": True}
     yield {"op": "write", "refs": two, "text": [], "recs": ex, "blk": 65280, "eof": True, "mode": "index", "idx": [4, 0, 3, 1]}
+    # write back of integer-array selections of EQUAL-SIZED records: permutations that keep the first and the last record in
+    # place, repetitions whose byte lengths add up to the spanned range, and the same with unequal sizes
+    def eq_rec(i, extra=""):
+        return dict(base, name="q%02d" % i + extra, pos=100 + i, flag=(16 if i % 2 else 0), mapq=i, cigar=[["M", 3 + (i % 3)], ["S", 1]],
+                    seq="ACGTACG"[:5], qual=[i, 1, 2, 3, 4], tags=[65 + i])
+    eq = [eq_rec(i) for i in range(6)]
+    assert len({len(encode_record(r)) for r in eq}) == 1
+    uneq = [eq_rec(i, "x" * (i % 3)) for i in range(6)]
+    fixed_idx = [[0, 2, 1, 3, 4, 5], [1, 3, 2, 4], [0, 0, 2], [0, 1, 1, 3], [0, 3, 2, 1, 4, 5], [2, 2, 4], [0, 4, 3, 2, 1, 5], [1, 1, 3, 3, 5],
+                 [0, 5], [5, 0], [0, 2, 4], [3, 3, 3, 3], [0, 1, 2, 3, 4, 5], [4, 5, 5], [0, 0, 1, 1, 2, 2]]
+    for recs_ in (eq, uneq):
+        for idx in fixed_idx:
+            yield {"op": "write", "refs": two, "text": [], "recs": recs_, "blk": 4096, "eof": True, "mode": "index", "idx": idx}
+        for _ in range(12 * f):
+            n = rng.choice([4, 5, 6])
+            if rng.random() < 0.5:      # permutation keeping both ends
+                mid = list(range(1, n - 1))
+                rng.shuffle(mid)
+                idx = [0] + mid + [n - 1]
+            else:                        # repetitions inside a span
+                lo, hi = sorted(rng.sample(range(n), 2))
+                idx = sorted(rng.choice(range(lo, hi + 1)) for _ in range(hi - lo + 1))
+                idx[0] = lo
+                if rng.random() < 0.5:
+                    idx[-1] = hi
+            yield {"op": "write", "refs": two, "text": [], "recs": recs_[:n], "blk": 4096, "eof": True, "mode": "index", "idx": idx}
+    # 28-bit CIGAR lengths >= 2^27, and files ending with zero-op records after a record whose last op consumes the reference
+    bigc = dict(base, pos=5, cigar=[["S", (1 << 28) - 1], ["M", 1 << 27], ["I", (1 << 27) + 1], ["N", (1 << 27) + 3], ["H", 1 << 27]])
+    tail0 = [dict(base, cigar=[["S", 2], ["M", 7]]), dict(base, name="z1", cigar=[]), dict(unm, name="z2", cigar=[])]
+    for op in ("decode", "interval"):
+        yield {"op": op, "refs": two, "text": [], "recs": [bigc, rv], "blk": 4096, "eof": True}
+        yield {"op": op, "refs": two, "text": [], "recs": tail0, "blk": 4096, "eof": True}
+        yield {"op": op, "refs": two, "text": [], "recs": [rv, dict(base, cigar=[["I", 3], ["D", 1 << 27]]), dict(base, name="e", cigar=[])], "blk": 4096, "eof": True}
+    yield {"op": "chunked", "refs": two, "text": [], "recs": tail0, "blk": 64, "eof": True, "k": max(len(encode_record(r)) for r in tail0)}
     # two record sizes differing by one, chunk sizes around them
     for _ in range(30 * f):
         c = rand_file(rng, nrec=0)
